@@ -242,6 +242,32 @@ async fn healthz() -> Json<Health> {
     })
 }
 
+/// Verification hooks: direct entry points to the pkarr relay handlers.
+#[cfg(iroh_verif)]
+pub(crate) mod verif_hooks {
+    use axum::{
+        extract::{Path, State},
+        response::{IntoResponse, Response},
+    };
+    use bytes::Bytes;
+
+    use crate::state::AppState;
+
+    /// Runs the `PUT /pkarr/{key}` handler.
+    pub(crate) async fn pkarr_put(state: AppState, key: String, body: Bytes) -> Response {
+        super::pkarr::put(State(state), Path(key), body)
+            .await
+            .into_response()
+    }
+
+    /// Runs the `GET /pkarr/{key}` handler.
+    pub(crate) async fn pkarr_get(state: AppState, key: String) -> Response {
+        super::pkarr::get(State(state), Path(key))
+            .await
+            .into_response()
+    }
+}
+
 pub(crate) fn create_app(state: AppState, rate_limit_config: &RateLimitConfig) -> Router {
     // configure cors middleware
     let cors = CorsLayer::new()
